@@ -965,6 +965,8 @@ class Angle(object):
 
         if isinstance(b, (int, float)):
             b = Angle(b)
+        elif not isinstance(b, Angle):
+            raise TypeError("Wrong operand type")
         # Negative values will be treated as if they were positive
         sign = 1.0 if b._deg >= 0.0 else -1.0
         return Angle(sign * (abs(b._deg) % self._deg))
